@@ -1,6 +1,7 @@
 package c11
 
 import (
+	"bytes"
 	"fmt"
 	"sort"
 	"strings"
@@ -41,6 +42,7 @@ type rnode struct {
 	err    error
 	qual   []uint32
 	faulty bool
+	twice  string
 }
 
 type rout struct {
@@ -325,12 +327,34 @@ func runRabin(r rcfg) *rout {
 			continue
 		}
 		nd.key, nd.err = nd.gen.DistKeyShare()
+		// the output is a value: asking for it a second time gives the same share and leaves the first answer as it was
+		if nd.err == nil && nd.key != nil {
+			b1, _ := nd.key.Share.V.MarshalBinary()
+			k2, err2 := nd.gen.DistKeyShare()
+			b1again, _ := nd.key.Share.V.MarshalBinary()
+			switch {
+			case err2 != nil || k2 == nil:
+				nd.twice = fmt.Sprintf("the second DistKeyShare() fails: %v", err2)
+			case !bytes.Equal(b1, b1again):
+				nd.twice = "the share returned by the first DistKeyShare() changed when the output was asked for again"
+			default:
+				if b2, _ := k2.Share.V.MarshalBinary(); !bytes.Equal(b1, b2) || k2.Share.I != nd.key.Share.I || len(k2.Commits) != len(nd.key.Commits) {
+					nd.twice = "the second DistKeyShare() returns another share"
+				}
+			}
+		}
 	}
 	return o
 }
 
 func judgeRabin(x *vf.Ctx, c *vf.Check, r rcfg, o *rout, pk string) {
 	id := r.String()
+	for _, nd := range o.nodes {
+		if nd.twice != "" {
+			x.Failf(pk+"/output-not-repeatable", "%s: node %d: %s", id, nd.idx, nd.twice)
+			return
+		}
+	}
 	var honest, done []*rnode
 	for _, nd := range o.nodes {
 		if !nd.faulty {
